@@ -245,6 +245,11 @@ def run_rec(ctx, exe, scns, tag, nshards=None, timeout=900):
     """Writes the scenarios into shard files, runs the recorder on each (restarting after a crash / sanitizer abort),
     returns the list of trace files.  A crashed scenario is recorded as Reset + End(san=true) carrying the report."""
     nshards = nshards or vlib.NCPU
+    names = set()
+    for s in scns:
+        if s.name in names:
+            raise vlib.Infra("duplicate run name %s (trace points and replays are keyed by run name)" % s.name)
+        names.add(s.name)
     shards = [s for s in vlib.chunks(scns, nshards) if s]
 
     def one(i):
